@@ -84,7 +84,7 @@ SessionClose ==
 \* unknown command, or Server.Close, close the connection while the serve loop is still running; commands
 \* that were already received may still be executed before the loop notices.
 ConnClose ==
-  /\ phase \in {"serving", "teardown"} /\ ~connClosed
+  /\ phase \in {"new", "serving", "teardown"} /\ ~connClosed   \* "new": Server.Close before the session exists
   /\ connClosed' = TRUE
   /\ UNCHANGED <<phase, mode, sessionOpen, closeCount, idleRunning, peerGone, exited>>
 
